@@ -11,7 +11,7 @@ Registration histories interleaved with parsing are not decided.
 import ast
 
 from .. import regexast
-from ..astutil import body_raises, call_simple_name, exc_name, guard_chain, names_in, short
+from ..astutil import body_raises, call_simple_name, exc_name, guard_chain, names_in, pm, pmall, short
 from ..cfg import cfg_of, node_calls
 from ..dectable import IntSet, int_cond
 from ..loader import AnalysisError, ClassInfo, FunctionInfo, body_walk, clone, norm, walk_no_nested
@@ -178,7 +178,8 @@ def rule_validation_before_write(ctx):
     # _validate_props: 2.1 prefix rule and reference rule
     vp = prog.func(REG + "::_validate_props")
     t = norm(vp.node)
-    ok = "if version != '2.0'" in t and "re.match(PREFIX_21_REGEX, prop_name)" in t and "_validate_ref_props(props_map, **kwargs)" in t
+    ok = pmall(t, "if version != '2.0'", "for $n, $v in %s.items()" % vp.params[0], "re.match(PREFIX_21_REGEX, $n)") is not None \
+        and "_validate_ref_props(%s, **kwargs)" % vp.params[0] in t
     run.check(ok, R, key(vp.module.relpath, vp.qualname, "rules"), "property-name rules changed", file=vp.module.relpath,
               line=vp.node.lineno, function=vp.qualname, expected="2.1 names start with a letter; *_ref(s) are reference properties",
               found=short(vp.node, 200))
@@ -234,7 +235,10 @@ def rule_version_scope(ctx):
                   found=getattr(d, "id", None))
         for p in ("type", "properties"):
             e = bound.params.get(p)
-            ok = e is not None and (norm(e) == p or (p == "properties" and norm(e) == "_properties"))
+            ok = e is not None and norm(e) == p
+            if not ok and p == "properties" and isinstance(e, ast.Name):
+                # a local table that embeds the decorator's `properties` argument (dynamic segment) is the forwarded value
+                ok = rec["slots"] is not None and any("properties" in str(s_[1].get("dyn", "")) for s_ in rec["slots"] if s_[0] == "<dyn>")
             run.check(ok, R, key(rec["file"], name, "forwards-" + p), "the decorator does not pass its %s to the builder" % p,
                       file=rec["file"], line=call.lineno, function=name, expected=p, found=norm(e) if e is not None else None)
     # each builder forwards version to its _register_*
@@ -258,7 +262,10 @@ def rule_version_scope(ctx):
         # _type / _properties of the built class come from the arguments
         if inner:
             body = {norm(s.targets[0]): norm(s.value) for s in inner[0].node.body if isinstance(s, ast.Assign)}
-            okt = body.get("_type") == "type" and body.get("_properties") in ("prop_dict", "nested_properties")
+            from ..forward import flow_of
+            pv = body.get("_properties")
+            prp = flow_of(fi).prov(ast.Name(id=pv, ctx=ast.Load()), cfg_of(fi).node_of(inner[0].node)) if pv else None
+            okt = body.get("_type") == "type" and prp is not None and "properties" in prp.params
             run.check(okt, R, key(fi.module.relpath, fi.qualname, "class-attributes"), "built class does not carry the requested type / "
                       "property table", file=fi.module.relpath, line=inner[0].node.lineno, function=fi.qualname,
                       expected="_type = type; _properties = <dict of properties>", found=body)
